@@ -91,6 +91,21 @@ def job_output(name, tier, variant, prefix):
             if not isinstance(tok, Tok) or tok.kind != 'time': return False
             t = abs_time(tok.val); return (Z(t) == term) if t is not None else False
         T = st['tours']; V = st['vehicles']
+        def mk(m, clause, net=net):
+            ops = [dict(op='schedule_empty', name='S0')]
+            for i, op in enumerate(prefix): ops.append(SO.replay_op(net, tuple(op), 'S%d' % i, 'S%d' % (i + 1)))
+            ops.append(dict(op='schedule_to_json', schedule='S%d' % len(prefix)))
+            sc = dict(instance=NB.to_json(net, m), ops=ops); res = {}
+            for prof in ('dev', 'release'):
+                obs = replay.run(sc, prof)
+                if any(isinstance(o, dict) and 'panic' in o for o in obs): res[prof] = ['native panic']; continue
+                state = obs[-2]['ok'] if len(obs) >= 2 and isinstance(obs[-2], dict) and 'ok' in obs[-2] else obs[0]
+                res[prof] = native_check(net, m, state, obs[-1])
+            return dict(signature=clause + ' on base %s' % [o[0] for o in prefix], what='%s (base schedule built by %s)' % (clause, prefix), scenario=sc, expect=dict(native=res),
+                        native_confirmed=all(clause in res[p_] or 'native panic' in res[p_] for p_ in res))
+        _prove = J.prove
+        def prove(pc_, f, clause): return _prove(pc_, f, clause, lambda m: mk(m, clause))
+        J.prove = prove
         # ---- trip view
         segs = G(out, 'ScheduleJson', 'departure_segments').cells
         ids = [txt(G(c.v, 'JsonDepartureSegmentWithFormation', 'departure_segment')) for c in segs]
@@ -160,7 +175,65 @@ def job_output(name, tier, variant, prefix):
         dn = {d['i']: d['id'] for d in net.depots}
         for v, nodes in T.items(): exp[(dn[net.info[nodes[0]]['depot']], 'vt%d' % V[v])] = exp.get((dn[net.info[nodes[0]]['depot']], 'vt%d' % V[v]), 0) + 1
         J.prove(pc, loads == exp and len(G(out, 'ScheduleJson', 'depot_loads').cells) == len(net.depots), 'output: depot loads = number of vehicles per start depot and type')
+        J.prove = _prove
         J.sample('base %s: %d vehicles, %d segments, %d slots serialised' % ([o[0] for o in prefix], len(T), len(segs), len(slots)))
     return J.result()
 
-def confirm(c): return False, 'no native scenario'
+def parse_iso(t):
+    """'0400-01-DDTHH:MM:SS' -> seconds relative to 0400-01-01T00:00:00 (None for EARLIEST/LATEST)"""
+    import re as _re
+    m_ = _re.match(r'^0400-01-(\d\d)T(\d\d):(\d\d):(\d\d)$', t)
+    if not m_: return None
+    d, h, mi, se = map(int, m_.groups()); return (d - 1) * 86400 + h * 3600 + mi * 60 + se
+
+def native_check(net, m, state_js, out):
+    """evaluate the property's clauses on the natively produced JSON (out) of the natively produced schedule (state_js), with the model's concrete attribute values"""
+    bad = []; v_ = lambda e: mval(m, e)
+    idn = {I['id']: n for n, I in net.info.items()}
+    tours = {v['id']: [idn[x] for x in v['tour']['nodes']] for v in state_js['vehicles']}
+    vtype = {v['id']: int(v['type']) for v in state_js['vehicles']}
+    lname = lambda n, end: ('NOWHERE' if TS.nowhere(net, n) else 'loc%d' % v_(TS.eloc(net, n) if end else TS.sloc(net, n)))
+    segs = {d['departureSegment']: d for d in out['departureSegments']}
+    if sorted(d['departureSegment'] for d in out['departureSegments']) != sorted(net.info[n]['id'] for n in net.trips): bad.append('output: every departure segment of the input is listed exactly once')
+    for n in net.trips:
+        I = net.info[n]; d = segs.get(I['id'])
+        if d is None: continue
+        if (d['origin'], d['destination'], parse_iso(d['departure']), parse_iso(d['arrival']), d['vehicleType']) != ('loc%d' % v_(I['o']), 'loc%d' % v_(I['d']), v_(I['st']), v_(I['et']), 'vt%d' % I['vt']):
+            bad.append("output: a listed segment carries the input's origin, destination, departure, arrival = departure + duration and vehicle type")
+        if sorted(d['formation']) != sorted(v for v, t in tours.items() if n in t) or len(set(d['formation'])) != len(d['formation']):
+            bad.append('output: formation of a segment = exactly the vehicles whose itinerary contains it, none twice')
+    slots = {d['maintenanceSlot']: d for d in out['maintenanceSlots']}
+    if sorted(d['maintenanceSlot'] for d in out['maintenanceSlots']) != sorted(net.info[n]['id'] for n in net.maint): bad.append('output: every maintenance slot of the input is listed exactly once')
+    for n in net.maint:
+        I = net.info[n]; d = slots.get(I['id'])
+        if d is None: continue
+        if (d['location'], parse_iso(d['start']), parse_iso(d['end'])) != ('loc%d' % v_(I['sloc']), v_(I['st']), v_(I['et'])): bad.append("output: a listed slot carries the input's location and times")
+        if sorted(d['formation']) != sorted(v for v, t in tours.items() if n in t): bad.append('output: formation of a slot = exactly the vehicles whose itinerary contains it')
+    dn = {d['i']: d['id'] for d in net.depots}; loads = {}
+    for f in out['fleet']:
+        for v in f['vehicles']:
+            nodes = tours.get(v['id'])
+            if nodes is None: bad.append('output: the fleet of a type lists exactly its vehicles'); continue
+            if (v['startDepot'], v['endDepot']) != (dn[net.info[nodes[0]]['depot']], dn[net.info[nodes[-1]]['depot']]): bad.append('output: start and end depot of a vehicle are those of its itinerary')
+            if [x['departureSegment'] for x in v['departureSegments']] != [net.info[n]['id'] for n in nodes if net.info[n]['kind'] == 'Service'] or [x['maintenanceSlot'] for x in v['maintenanceSlots']] != [net.info[n]['id'] for n in nodes if net.info[n]['kind'] == 'Maintenance']:
+                bad.append('output: the vehicle lists exactly the activities of its itinerary, in order')
+            changes = [(a, b) for a, b in zip(nodes, nodes[1:]) if lname(a, True) != lname(b, False)]
+            okd = len(changes) == len(v['deadHeadTrips'])
+            for (a, b), e in zip(changes, v['deadHeadTrips']):
+                dep, arr = parse_iso(e['departure']), parse_iso(e['arrival'])
+                if (e['origin'], e['destination']) != (lname(a, True), lname(b, False)): okd = False
+                if not TS.is_depot(net, a) and not TS.is_depot(net, b):
+                    if dep is None or arr is None or not (v_(net.info[a]['et']) <= dep <= arr <= v_(net.info[b]['st'])): okd = False
+                elif TS.is_depot(net, a) and not TS.is_depot(net, b) and arr is not None and arr > v_(net.info[b]['st']): okd = False
+                elif not TS.is_depot(net, a) and dep is not None and dep < v_(net.info[a]['et']): okd = False
+            if not okd: bad.append('output: the listed dead-head trips of a vehicle are exactly its location changes, each inside the gap it bridges')
+    for d in out['depotLoads']:
+        for l in d['load']: loads[(d['depot'], l['vehicleType'])] = l['spawnCount']
+    exp = {}
+    for v, nodes in tours.items(): exp[(dn[net.info[nodes[0]]['depot']], 'vt%d' % vtype[v])] = exp.get((dn[net.info[nodes[0]]['depot']], 'vt%d' % vtype[v]), 0) + 1
+    if loads != exp: bad.append('output: depot loads = number of vehicles per start depot and type')
+    return bad
+
+def confirm(c):
+    if 'native_confirmed' in c: return bool(c['native_confirmed']), json.dumps(c.get('expect'))[:500]
+    return False, 'no native scenario'
